@@ -216,6 +216,8 @@ class Interp:
             return n.get("v")
         if k == "tup":
             return ("T", [self.ev(x, env) for x in n.get("es", [])]) if n.get("es") else None
+        if k == "array":
+            return ("L", [self.ev(x, env) for x in n.get("es", [])])       # a literal table: `[(flag, minimum, message), ..]`
         if k == "path":
             r = n.get("res") or {}
             if r.get("dk") == "Local":
@@ -327,6 +329,37 @@ class Interp:
             if out is not NotImplemented:
                 return out
         t = tag(recv)
+        if isinstance(recv, tuple) and recv and recv[0] == "L":
+            # searches over a literal table, element by element in order
+            if name in ("find", "find_map", "any", "all", "position") and len(args) == 1:
+                for i_, el in enumerate(recv[1]):
+                    r_ = self.apply(args[0], [el])
+                    if name == "find_map":
+                        if tag(r_) == "Some":
+                            return r_
+                        if tag(r_) != "None":
+                            raise Unknown("find_map closure result " + show(r_))
+                        continue
+                    ok_ = self.truth(r_)
+                    if name == "find" and ok_:
+                        return C("Some", el)
+                    if name == "position" and ok_:
+                        return C("Some", i_)
+                    if name == "any" and ok_:
+                        return True
+                    if name == "all" and not ok_:
+                        return False
+                return {"find": C("None"), "find_map": C("None"), "position": C("None"), "any": False, "all": True}[name]
+            if name in ("len",):
+                return len(recv[1])
+            if name in ("first",):
+                return C("Some", recv[1][0]) if recv[1] else C("None")
+            if name in ("last",):
+                return C("Some", recv[1][-1]) if recv[1] else C("None")
+            if name == "is_empty":
+                return not recv[1]
+        if name in ("to_string", "as_str", "to_vec", "as_bytes") and not args:
+            return recv
         if name in ("clone", "as_ref", "as_mut", "copied", "cloned", "borrow", "to_owned", "as_deref", "into", "iter", "into_iter"):
             return recv
         if t in ("Some", "None", "Ok", "Err"):
